@@ -25,7 +25,13 @@ for d in sorted(glob.glob(os.path.join(HERE, "seeded", "C*-*"))):
     first_sig = sigs.split(";")[0].split(" (")[0][:70]
     after = s.get("after", "")
     strengthen = s.get("strengthening", "")
-    if after:
+    if s.get("other"):
+        # silent by design in the property the agent filed it under; the check of the property that owns
+        # the changed behaviour caught it as it stood
+        verdict = "caught by another property's check as it stood"
+        first_sig = s["other"].replace("KILLED ", "")[:70]
+        strengthen = s.get("why_other", "")
+    elif after:
         verdict += " → caught after strengthening"
         first_sig = after.replace("KILLED ", "")[:70]
     elif s.get("note"):
@@ -41,7 +47,8 @@ caught = sum(1 for r in rows if r[5] == "caught")
 missed = sum(1 for r in rows if r[5].startswith("missed") and "caught after" in r[5])
 open_ = sum(1 for r in rows if r[5].startswith("missed") and "caught after" not in r[5])
 notj = sum(1 for r in rows if r[5].startswith("not judged"))
-head = f"{len(rows)} seeded changes confirmed; {caught} caught by the quick check as it stood, {missed} missed at first and caught after the monitor was strengthened (generator / shapes widened, verdicts never loosened), {open_} still missed, {notj} not judged because what they change is outside what the statement fixes (reason in the last column).\n\n"
+other = sum(1 for r in rows if r[5].startswith("caught by another"))
+head = f"{len(rows)} seeded changes confirmed; {caught} caught by the quick check of their property as it stood, {other} caught as they stood by the check of the property that owns the changed behaviour (the property the agent filed them under does not cover that behaviour; reason in the last column), {missed} missed at first and caught after the monitor was strengthened (generator / shapes widened, verdicts never loosened), {open_} still missed, {notj} not judged because what they change is outside what the statement fixes (reason in the last column).\n\n"
 table = head + "\n".join(lines) + "\n"
 open(os.path.join(HERE, "seeded", "RESULTS.md"), "w").write("# Independently seeded changes\n\n" + table)
 p = os.path.join(HERE, "DESIGN.md")
